@@ -248,6 +248,8 @@ EXTREME_LITERALS = [
     "fn vf_self(n) = if n <= 0 then 0 else foldl(vf_self, n - 1, [1])\nvf_self(3)", "fn vf_s2(x) = (if x > 0 then vf_s2 else abs)(x - 1)\nvf_s2(2)",
     "fn vf_s3(xs) = if is_empty(xs) then 0 else sum(map(vf_s3, [tail(xs)]))\nvf_s3([1, 2])", "fn vf_s4(x) = [vf_s4]\nvf_s4(1)",
     "fn vf_s5(x) = y where y = vf_s5", "fn vf_s6(f, x) = f(vf_s6, x)",
+    "(if 1 m > 0 m then sin else cos)(0)", "fn vf_s7(y) = (if y > 0 m then vf_s7 else abs)(y)", "(if true then [sqrt][0 m] else sin)(1)",
+    "gcd(60, inf)", "gcd(NaN, 1)", "lcm(inf, 2)", "gcd(1e300, 7)", "gcd(0.5, 0.25)", "mod(inf, 60)", "mod(60, inf)", "mod(NaN, NaN)",
     "?", "??", "? + 1 m", "1 + ?", "let x: ? = 1", "…", "1 … 2", "...", "1 +\n2", "1\n+ 2", "(\n1\n)", "[\n1,\n2\n]", "fn f(\nx\n) = x",
 ]
 
